@@ -229,6 +229,9 @@ def main(argv):
             if f.get("cool") != "true":
                 chk.violate("model-cooling", "model: a snapshot's table is freed within 64 s of being taken although no "
                             "stale stamp was pushed: %s %s" % (block, prog_str(th)), rep)
+            if f.get("stale") != "false":
+                chk.violate("model-stale-stamp", "model: some schedule lets retire() push a stamp older than the list it "
+                            "heads (F4 regression): %s %s" % (block, prog_str(th)), rep)
             if f.get("stuck") != "0":
                 chk.violate("model-stuck", "model: a thread cannot finish: %s %s" % (block, prog_str(th)), rep)
     MON = ["same", "stable", "ctor", "dtor", "cool", "snap", "leak", "segs"]
@@ -263,11 +266,7 @@ def main(argv):
         stale_runs += stale
         for m in MON:
             if mon.get(m) != "1":
-                if m in ("cool", "snap") and stale:
-                    chk.violate("cooling-stale-stamp", WHAT[m] + " (after a retire that pushed a stale stamp): " + detail +
-                                " :: " + block + " " + prog_str(th), rep)
-                else:
-                    chk.violate("mon-" + m, WHAT[m] + ": " + detail + " :: " + block + " " + prog_str(th), rep)
+                chk.violate("mon-" + m, WHAT[m] + ": " + detail + " :: " + block + " " + prog_str(th), rep)
         distinct.add((pid, parts[1]))
         if pid in model_sets:
             outs, trunc, _ = model_sets[pid]
@@ -280,7 +279,7 @@ def main(argv):
     chk.cov["traces_validated_against_impl"] = validated
     chk.cov["states"] = states
     chk.cov["transitions"] = trans
-    chk.cov["runs_with_stale_retire_stamp"] = stale_runs
+    chk.cov["runs_where_a_retire_stalled_across_a_time_unit"] = stale_runs
     chk.cov["rule"] = ("case = (block size static/dynamic, client program, schedule); small programs: seeded random mixes of "
                        "ensure/reserve/[]/size/snapshot/snapshot[]/for_each/fill_n/copy_n/gc/advance over 2-3 threads, block "
                        "sizes 1,2,4 (hints 1,2,3); directed programs aimed at growth-vs-growth races, retire-vs-retire across a "
